@@ -510,7 +510,23 @@ class CGen:
     def cond(self, names):
         return f"{self.atom(names)} {self.r.choice(['<', '>', '==', '!=', '<=', '>='])} {self.atom(names)}"
 
-    def function(self, fname, externs):
+    def noreturn_body(self, vals, externs, ind):
+        """statements of an endless loop: values stay in registers across the call(s) of a region that never reaches the exit"""
+        r = self.r
+        out = []
+        a, bb, c = r.choice(vals), r.choice(vals), r.choice(vals)
+        out.append(f"{ind}{a} = {self.expr(vals)};")
+        if externs:
+            en, ety, eargs = r.choice(externs)
+            out.append(f"{ind}{bb} = {bb} + {en}({', '.join(self.atom(vals) for _ in eargs)});")
+        out.append(f"{ind}if ({self.cond(vals)}) {{ {c} = {self.expr(vals)}; }} else {{ {a} = {a} + {r.choice(vals)}; }}")
+        if externs and r.random() < 0.5:
+            en, ety, eargs = r.choice(externs)
+            out.append(f"{ind}{c} = {c} ^ {en}({', '.join(self.atom(vals) for _ in eargs)});")
+        out.append(f"{ind}{bb} = {bb} + {' + '.join(r.sample(vals, min(len(vals), 4)))};")
+        return out
+
+    def function(self, fname, externs, noreturn=False):
         r = self.r
         nparams = r.randint(1, 7)
         params = [(self.ty(), f"p{i}") for i in range(nparams)]
@@ -524,7 +540,16 @@ class CGen:
             names.append(f"v{i}")
             vals.append(f"v{i}")
         out.append("  int i;")
+        panic_at = r.randrange(self.nblocks + 1) if (noreturn or r.random() < 0.2) else -1
+        tail_loop = noreturn and r.random() < 0.4
         for b in range(self.nblocks):
+            if b == panic_at:
+                # a panic branch: region that never reaches the function exit
+                out.append(f"  if ({self.cond(vals)}) {{")
+                out.append("    for (;;) {")
+                out += self.noreturn_body(vals, externs, "      ")
+                out.append("    }")
+                out.append("  }")
             k = r.random()
             if k < 0.3 and externs:
                 en, ety, eargs = r.choice(externs)
@@ -547,11 +572,19 @@ class CGen:
             else:
                 a = r.choice(vals)
                 out.append(f"  while ({a} > {self.atom(vals)}) {{ {a} = {a} - {r.choice(['1', '3'])}; {r.choice(vals)} ^= {a}; }}")
+        if panic_at == self.nblocks or tail_loop:
+            # event loop whose only way out is a return in one branch / no way out at all
+            out.append("  for (;;) {")
+            out += self.noreturn_body(vals, externs, "    ")
+            if not tail_loop:
+                out.append(f"    if ({self.cond(vals)}) {{ return {r.choice(vals)}; }}")
+                out.append(f"    if ({self.cond(vals)}) {{ for (;;) {{ {r.choice(vals)} += {r.choice(vals)}; }} }}")
+            out.append("  }")
         out.append("  return " + " + ".join(vals) + ";")
         out.append("}")
         return "\n".join(out)
 
-    def program(self, nfuncs):
+    def program(self, nfuncs, noreturn=False):
         r = self.r
         externs = []
         decls = []
@@ -561,7 +594,7 @@ class CGen:
             rt = self.ty()
             externs.append((f"ext{e}", rt, at))
             decls.append(f"{rt} ext{e}({', '.join(t + ' a' + str(i) for i, t in enumerate(at))});")
-        funcs = [self.function(f"fn{i}", externs) for i in range(nfuncs)]
+        funcs = [self.function(f"fn{i}", externs, noreturn and i == 0) for i in range(nfuncs)]
         return "\n".join(decls + funcs) + "\n"
 
 
@@ -586,6 +619,42 @@ char f2(char a, char b, int c, unsigned char d, unsigned char e) {
   if (x > y) { z = h2(z, x, y) + u; x = x + 1; } else { y = y - 1; }
   while (z > 0) { z = z - w; x = x ^ u; y += x; }
   return x + y + z + u + w;
+}
+"""),
+    # functions that have an exit AND a region from which the exit cannot be reached (bare-metal event loop,
+    # panic loop in one branch, loop left only through a return): values must survive the calls in there
+    ("non-returning-regions", """
+void report(int i, int acc, int seed, int step, int scale);
+int poll(int a, int b);
+void event_loop(int seed, int step, int scale) {
+  int i = 0;
+  int acc = seed;
+  for (;;) {
+    acc = acc * scale + step;
+    i = i + 1;
+    report(i, acc, seed, step, scale);
+  }
+}
+int blink(int *port, int mask, int period, int fault) {
+  int n = 0;
+  int k;
+  if (fault) {
+    for (;;) {
+      for (k = 0; k < period; k++) { n = n + mask; }
+      *port = *port ^ mask;
+      port[1] = n + poll(n, period);
+    }
+  }
+  return mask + period;
+}
+int serve(int a, int b, int c, int d, int e) {
+  int s0 = a + b, s1 = b * c, s2 = c - d, s3 = d ^ e, s4 = e + a, s5 = a * d;
+  for (;;) {
+    int q = poll(s0, s1);
+    if (q == 0) { return s0 + s1 + s2 + s3 + s4 + s5; }
+    if (q < 0) { for (;;) { s2 = s2 + poll(s3, s4); report(s0, s1, s2, s3, s5); } }
+    s0 = s0 + q; s1 = s1 ^ s4; s3 = s3 + s5;
+  }
 }
 """),
 ]
@@ -735,7 +804,42 @@ class IRGen:
         cnt.set_incoming(self.block, nxt)
         self.block = exit_
 
-    def module(self, nvals, nsegs, nfuncs=1):
+    def seg_noreturn(self, vals):
+        """a branch into an endless loop (no path to the function exit) that keeps many values live across its calls"""
+        ir, r = self.ir, self.r
+        ty = self.types[0]
+        a, b = self.operand(vals, ty), self.operand(vals, ty)
+        panic, cont, head = self.new_block(), self.new_block(), self.new_block()
+        self.emit(ir.CJump(a, r.choice(self.feat["cmps"]), b, panic, cont))
+        self.block = panic
+        self.emit(ir.Jump(head))
+        self.block = head
+        idx = r.sample(range(len(vals)), min(len(vals), r.randint(1, 3)))
+        v2 = list(vals)
+        phis = {}
+        for i in idx:
+            phi = self.emit(ir.Phi(self.name("np"), vals[i].ty))
+            phi.set_incoming(panic, vals[i])
+            phis[i] = phi
+            v2[i] = phi
+        for i in idx:
+            v2[i] = self.binop(v2, v2[i].ty)
+        if self.exts:
+            self.seg_call(v2)
+        if r.random() < 0.4:
+            self.seg_diamond(v2)
+        if self.exts and r.random() < 0.5:
+            self.seg_call(v2)
+        i0 = idx[0]
+        for w in r.sample(vals, min(len(vals), 4)):        # values from outside stay live through the whole region
+            if w.ty is v2[i0].ty or self.feat.get("casts", True):
+                v2[i0] = self.emit(ir.Binop(v2[i0], "+", self.conv(w, v2[i0].ty), self.name("v"), v2[i0].ty))
+        self.emit(ir.Jump(head))
+        for i in idx:
+            phis[i].set_incoming(self.block, v2[i])
+        self.block = cont
+
+    def module(self, nvals, nsegs, nfuncs=1, noreturn=False):
         ir, r = self.ir, self.r
         m = ir.Module("gen")
         self.exts = []
@@ -761,7 +865,12 @@ class IRGen:
             for i in range(nvals):
                 ty = r.choice(self.types) if r.random() < 0.5 else self.types[0]
                 vals.append(self.binop(params + vals, ty))
-            for s in range(nsegs):
+            force_at = r.randrange(nsegs + 1) if noreturn else -1
+            for s in range(nsegs + 1):
+                if s == force_at or (s < nsegs and r.random() < 0.1):
+                    self.seg_noreturn(vals)
+                if s == nsegs:
+                    break
                 k2 = r.random()
                 if k2 < 0.3:
                     self.seg_straight(vals)
@@ -1071,12 +1180,13 @@ def job_source(job):
         return "c", CORPUS[job["n"]][1]
     if job["kind"] == "c":
         g = CGen(rng, PALETTE[arch], nvals=rng.randint(4, 16), nblocks=rng.randint(1, 5))
-        return "c", g.program(rng.randint(1, 2))
+        return "c", g.program(rng.randint(1, 2), noreturn=job.get("noreturn", False))
     g = IRGen(rng, IRFEAT[arch])
     if arch == "m68k":
-        return "ir", g.module(nvals=rng.randint(1, 3), nsegs=rng.randint(0, 2))
+        return "ir", g.module(nvals=rng.randint(1, 3), nsegs=rng.randint(0, 2), noreturn=job.get("noreturn", False))
     big = job.get("big", False)
-    return "ir", g.module(nvals=rng.randint(10, 24) if big else rng.randint(3, 14), nsegs=rng.randint(2, 7) if big else rng.randint(1, 5))
+    return "ir", g.module(nvals=rng.randint(10, 24) if big else rng.randint(3, 14), nsegs=rng.randint(2, 7) if big else rng.randint(1, 5),
+                          noreturn=job.get("noreturn", False))
 
 
 def run_job(job):
@@ -1163,15 +1273,23 @@ def run_job(job):
     return res
 
 
+# inputs of past findings: always run, in both tiers
+REGRESSION_JOBS = [
+    # fixed 8a3b4f9: fall-through into a jump target had no flow-graph edge (mips drops conditional jumps)
+    {"arch": "mips", "big": False, "kind": "ir", "noreturn": False, "seed": 2841917993, "timeout": 60},
+    {"arch": "mips", "big": False, "kind": "ir", "noreturn": False, "seed": 3194298828, "timeout": 60},
+]
+
+
 def make_jobs(ctx):
     targets = ALL_TARGETS if ctx.thorough else QUICK_TARGETS
-    jobs = []
+    jobs = [dict(j) for j in REGRESSION_JOBS]
     for arch in targets:
         if arch in PALETTE:
             for n in range(len(CORPUS)):
                 if n == 1 and arch not in ("x86_64", "riscv", "riscv:rvc"):
                     continue
-                for opt in ((0, 2) if ctx.thorough else ((0,) if n == 1 and arch == "x86_64" else (2,))):
+                for opt in ((2,) if n == 2 else (0, 2) if ctx.thorough else ((0,) if n == 1 and arch == "x86_64" else (2,))):
                     jobs.append({"arch": arch, "kind": "corpus", "n": n, "opt": opt, "seed": 0})
     n_ir = 14 if ctx.thorough else 3
     n_c = 6 if ctx.thorough else 1
@@ -1179,12 +1297,12 @@ def make_jobs(ctx):
         tmo = 8 if arch == "m68k" else 60
         for k in range(n_ir):
             jobs.append({"arch": arch, "kind": "ir", "seed": ctx.rng.getrandbits(32), "timeout": tmo,
-                         "big": ctx.thorough and k % 3 == 2})
+                         "big": ctx.thorough and k % 3 == 2, "noreturn": k % 3 == 0})
         if arch in PALETTE:
             for k in range(n_c):
                 seed = ctx.rng.getrandbits(32)
                 for opt in ((0, 2) if ctx.thorough else (2,)):
-                    jobs.append({"arch": arch, "kind": "c", "seed": seed, "opt": opt, "timeout": tmo})
+                    jobs.append({"arch": arch, "kind": "c", "seed": seed, "opt": opt, "timeout": tmo, "noreturn": k % 2 == 0})
     return jobs
 
 
